@@ -104,9 +104,10 @@ func (r *report) finish() int {
 	for _, ob := range failed {
 		isKnown := false
 		for _, k := range known.Findings {
-			if k.Property == id && k.Obligation == ob.Name && k.Status == "known" {
+			if k.Obligation == ob.Name && k.Status == "known" {
+				// the same failing obligation is the same finding in every check that contains it
 				isKnown = true
-				knownHit = append(knownHit, fmt.Sprintf("KNOWN-FINDING: property=%s %s: %s", id, ob.Name, k.What))
+				knownHit = append(knownHit, fmt.Sprintf("KNOWN-FINDING: property=%s %s: %s", k.Property, ob.Name, k.What))
 			}
 		}
 		if isKnown {
